@@ -558,6 +558,7 @@ pub fn jaeger_expected(r: &Rec) -> Rec {
 }
 
 pub const UDP_LIMIT: usize = 8000;
+static TIMED_OUT: std::sync::atomic::AtomicBool = std::sync::atomic::AtomicBool::new(false);
 
 /// C19+C20 oracle for the datagrams of ONE report() call
 pub fn check_jaeger(service: &str, batch: &[Rec], datagrams: &[Vec<u8>], prop: &str) -> Vec<Viol> {
@@ -747,6 +748,10 @@ pub fn capture_udp(sink: &UdpSink, f: impl FnOnce()) -> Result<Vec<Vec<u8>>, Str
         let mut out: Vec<Vec<u8>> = Vec::new();
         let mut buf = vec![0u8; 70000];
         loop {
+            // a reporter that never stops sending (report() did not return) must not keep us here
+            if TIMED_OUT.load(std::sync::atomic::Ordering::SeqCst) || out.len() > 200_000 {
+                return Ok(out);
+            }
             match reader.recv_from(&mut buf) {
                 Ok((n, _)) => {
                     if &buf[..n] == b"__SENTINEL__" {
@@ -774,6 +779,11 @@ pub enum Outcome {
 }
 
 pub fn run_jaeger(udp: &UdpSink, batch: &[Rec], prop: &str) -> Outcome {
+    if TIMED_OUT.load(std::sync::atomic::Ordering::SeqCst) {
+        // a previous report() call of this process never returned: its thread is still sending,
+        // nothing measured from now on would be meaningful (and shrinking must not wait 30 s per step)
+        return Outcome::Viols(vec![v("report-did-not-return", "an earlier JaegerReporter::report call of this process did not return within 30 s")]);
+    }
     let addr = format!("127.0.0.1:{}", udp.port).parse().unwrap();
     let mut rep = fastrace_jaeger::JaegerReporter::new(addr, SERVICE).unwrap();
     let records: Vec<_> = batch.iter().map(|r| r.to_record()).collect();
@@ -786,11 +796,18 @@ pub fn run_jaeger(udp: &UdpSink, batch: &[Rec], prop: &str) -> Outcome {
         });
         if rx.recv_timeout(Duration::from_secs(30)).is_err() {
             // leave the thread behind; reported below
+            TIMED_OUT.store(true, std::sync::atomic::Ordering::SeqCst);
             std::mem::forget(h);
         } else {
             let _ = h.join();
         }
     });
+    if TIMED_OUT.load(std::sync::atomic::Ordering::SeqCst) {
+        // the call must terminate; 30 s for one batch of at most a few hundred records on
+        // loopback is three orders of magnitude above the normal time. The process is not
+        // reusable afterwards (the reporter thread keeps running), so stop here.
+        return Outcome::Viols(vec![v("report-did-not-return", format!("JaegerReporter::report did not return within 30 s for a batch of {} records", batch.len()))]);
+    }
     match res {
         Err(e) => Outcome::Inconclusive(e),
         Ok(dgrams) => {
